@@ -22,7 +22,7 @@ LEVEL = "exploration"
 warnings.simplefilter("ignore")
 
 ANALYTIC = {"Gaussian", "Exponential", "Matern", "Integral", "HyperSpherical", "JBessel", "TPLGaussian", "TPLExponential"}
-KL = [0.0, 1e-9, 0.1, 0.5, 1.0, 2.0, 5.0, 10.0, 30.0]
+KL = [0.0, 1e-9, 1e-6, 1e-3, 1e-2, 0.1, 0.5, 1.0, 2.0, 5.0, 10.0, 30.0]  # (1e-9 .. 1e-2: wave numbers that are small but not 'zero' for an absolute test)
 KL_FAR = [100.0, 1000.0]
 U = [1e-6, 0.01, 0.1, 0.5, 0.9, 0.99, 1 - 1e-6]
 
@@ -117,10 +117,11 @@ def case_density(case):
     for fname in ("spectral_density", "spectrum", "spectral_rad_pdf"):
         fn = getattr(m, fname)
         base = np.asarray(fn(kf), dtype=float)
-        r.close(f"{fname}(list of int) == {fname}(float array)", np.asarray(fn(ki), dtype=float), base, rtol=1e-13, atol=1e-300, **extra)
-        r.close(f"{fname}(integer array) == {fname}(float array)", np.asarray(fn(np.array(ki)), dtype=float), base, rtol=1e-13, atol=1e-300, **extra)
+        rt = 1e-13 if analytic else 1e-9  # (the numerical transform of one wave number differs from the one of an array by rounding)
+        r.close(f"{fname}(list of int) == {fname}(float array)", np.asarray(fn(ki), dtype=float), base, rtol=rt, atol=1e-300, **extra)
+        r.close(f"{fname}(integer array) == {fname}(float array)", np.asarray(fn(np.array(ki)), dtype=float), base, rtol=rt, atol=1e-300, **extra)
         if d > 1 or fname != "spectral_rad_pdf":
-            r.close(f"{fname}(python int) == {fname}(float array)[i]", [float(np.asarray(fn(k_)).ravel()[0]) for k_ in ki[1:]], base[1:], rtol=1e-13, atol=1e-300, **extra)
+            r.close(f"{fname}(python int) == {fname}(float array)[i]", [float(np.asarray(fn(k_)).ravel()[0]) for k_ in ki[1:]], base[1:], rtol=rt, atol=1e-300, **extra)
     # normalisation of the radial pdf
     if analytic or True:
         K = (60.0 if not analytic else 2000.0) / unit
@@ -197,7 +198,24 @@ def case_history(case):
     return r.done(outcome=[cls, d0, d1])
 
 
-GROUPS = {"density": case_density, "history": case_history}
+def case_effdim(case):
+    """lat-lon and spatio-temporal (metric) models have the spectral functions of their effective dimension"""
+    r = R()
+    cls, opts, kw = case["cls"], case["opts"], case["kw"]
+    m = getattr(gs, cls)(var=1.4, len_scale=1.3, **kw, **opts)
+    d = int(m.dim)
+    fresh = getattr(gs, cls)(dim=d, var=1.4, len_scale=1.3, **opts)
+    extra = {"cls": cls, "dim": d, **kw}
+    k = np.array([0.0, 0.05, 0.5, 1.0, 3.0, 10.0]) * fresh.rescale / 1.3
+    for fname in ("spectral_density", "spectrum", "spectral_rad_pdf"):
+        r.close(f"{fname} of a lat-lon / temporal model == {fname} of the plain model of the effective dimension", getattr(m, fname)(k), getattr(fresh, fname)(k), rtol=1e-10, atol=1e-300, **extra)
+    r.eq("has_cdf / has_ppf as for the plain model of the effective dimension", [bool(m.has_cdf), bool(m.has_ppf)], [bool(fresh.has_cdf), bool(fresh.has_ppf)], **extra)
+    if m.has_cdf:
+        r.close("spectral_rad_cdf == that of the plain model of the effective dimension", m.spectral_rad_cdf(k), fresh.spectral_rad_cdf(k), rtol=1e-12, atol=1e-300, **extra)
+    return r.done(outcome=[cls, d, str(kw)])
+
+
+GROUPS = {"density": case_density, "history": case_history, "effdim": case_effdim}
 
 
 def run(chk):
@@ -208,8 +226,21 @@ def run(chk):
             for opts in cf.opt_grid(cls, d, tier):
                 for ls, rs in ([(0.5, None), (3.0, 2.0)] if tier != "quick" else [(0.5, None) if (d + len(cases)) % 2 else (3.0, 2.0)]):  # (never len_scale == rescale: a rescaled length of 1 hides scale mistakes)
                     cases.append({"cls": cls, "dim": d, "opts": opts, "len_scale": ls, "rescale": rs})
-    chk.run("density", case_density, cases, rule="17 classes x dim 1-3 x optional-argument grid (both bounds) x (len_scale, rescale) x wave numbers k l in {0, 1e-9, .1, .5, 1, 2, 5, 10, 30 (, 100, 1000 analytic)} x probabilities {1e-6 .. 1-1e-6}: density vs independent radial Fourier transform and Gaussian-window Parseval identity, pdf / cdf / ppf relations", max_skip_frac=0.4, chunk=2)
+                # very large and very small length scales: thresholds on a wave number instead of k * length show here
+                if tier != "quick" or (cls in cf.TPL or cls in ("Gaussian", "Exponential", "Matern", "Integral")) and opts == cf.opt_grid(cls, d, tier)[-1]:
+                    for ls in (40.0, 0.02):
+                        cases.append({"cls": cls, "dim": d, "opts": opts, "len_scale": ls, "rescale": None})
+    chk.run("density", case_density, cases, rule="17 classes x dim 1-3 x optional-argument grid (both bounds) x (len_scale, rescale; also len_scale 40 and 0.02) x wave numbers k l in {0, 1e-9, 1e-6, 1e-3, 1e-2, .1, .5, 1, 2, 5, 10, 30 (, 100, 1000 analytic)} x probabilities {1e-6 .. 1-1e-6}: density vs independent radial Fourier transform and Gaussian-window Parseval identity, pdf / cdf / ppf relations", max_skip_frac=0.4, chunk=2)
     hc = [{"cls": cls, "opts": cf.opt_grid(cls, max(d0, d1), "quick")[-1] if cls not in ("JBessel",) else {"nu": 3.0}, "d0": d0, "d1": d1} for cls in cf.SHIPPED for d0 in cf.valid_dims(cls) for d1 in cf.valid_dims(cls) if d0 != d1]
+    ec = []
+    for c in cf.SHIPPED:
+        for kw in ({"temporal": True, "spatial_dim": 1}, {"temporal": True, "spatial_dim": 2}, {"latlon": True}, {"latlon": True, "geo_scale": 3.0}, {"latlon": True, "temporal": True}):
+            eff = 3 + int(kw.get("temporal", False)) if kw.get("latlon") else kw["spatial_dim"] + 1
+            if eff not in cf.valid_dims(c, 4):
+                continue
+            for opts in cf.opt_grid(c, eff, "quick")[:2]:
+                ec.append({"cls": c, "opts": opts, "kw": kw})
+    chk.run("effdim", case_effdim, ec, rule="class x {temporal with spatial_dim 1-2, lat-lon (geo_scale 1, 3), lat-lon + temporal} x optional arguments: spectral density / spectrum / radial pdf / cdf equal those of the plain model of the effective dimension", chunk=4)
     chk.run("history", case_history, hc, rule="class x every ordered pair of valid dimensions: model used in dim d0, then dim := d1, len_scale := x, rescale := y in place; spectral density / pdf / spectrum / cdf after each step equal a freshly constructed model", chunk=4)
     chk.assume("accuracy classes fixed in advance: analytic spectral densities 1e-6 S(0); default numerical Hankel transform 5e-3 S(0) for k l <= 30 (its far tail is judged only through the pdf mass bound)")
     chk.assume("the correlation in the transform integrals is the library's correlation(), decided against closed forms by C03; heavy-tailed parameter sets whose transform is not absolutely convergent are skipped (counted); JBessel is judged in the inverse direction")
